@@ -13,7 +13,8 @@ Model of the client's cache and callback machinery (sequential part of `frappy/c
 
 Oracles (function parameters, universally quantified in the theorems):
   `imp m p j`    `datatype.import_value(j)` with the datatype rebuilt from the description (`none` = it raises)
-  `behave call`  what a user callback does when called (returns / raises `UnregisterCallback` / raises something else)
+  `behave call`  what a user callback does when called: which registrations it removes through `unregister_callback`
+                 (its own or others'), and how it ends (returns / raises `UnregisterCallback` / raises something else)
 The clock is data: every line carries the reading `now` that `time.time()` returns while it is processed.
 Strings that the code takes apart (identifiers, names, error texts) are `List Char`.
 -/
@@ -190,11 +191,23 @@ structure Call (V : Type) where
   item : Item V
   deriving DecidableEq
 
-inductive Outcome
+/-- how a callback ends -/
+inductive Result
   | ok
   | unregister     -- raises `UnregisterCallback`
   | raises         -- raises anything else
   deriving DecidableEq, Repr
+
+/-- what a callback does when it is called: `removes` are the registrations it takes out by calling
+`unregister_callback` (in this order; its own, others', also some that are not registered), `result` how it ends -/
+structure Outcome where
+  removes : List Reg := []
+  result : Result
+  deriving DecidableEq, Repr
+
+def Outcome.ok : Outcome := ⟨[], .ok⟩
+def Outcome.unregister : Outcome := ⟨[], .unregister⟩
+def Outcome.raises : Outcome := ⟨[], .raises⟩
 
 abbrev Cache (V : Type) := List ((Str × Str) × Item V)
 
@@ -208,28 +221,34 @@ structure State (V : Type) where
 
 def Reg.on (r : Reg) (kind : Kind) (key : Key) : Bool := r.kind == kind && r.key == key
 
+/-- `unregister_callback` called for each of `rs`: `list.remove` of the first occurrence, if there is one -/
+def applyRemoves (regs : List Reg) (rs : List Reg) : List Reg := rs.foldl List.erase regs
+
+/-- the registry after callback call `c`: what the callback unregistered itself, then — when it raised
+`UnregisterCallback` — the removal of its own registration if that is still there (`callback`, as repaired) -/
+def afterCall {V : Type} (behave : Call V → Outcome) (regs : List Reg) (c : Call V) : List Reg :=
+  let regs' := applyRemoves regs (behave c).removes
+  if (behave c).result = .unregister then regs'.erase c.reg else regs'
+
 /-- one turn of the loop in `ProxyClient.callback` -/
 def fanoutStep {V : Type} (behave : Call V → Outcome) (m p : Str) (item : Item V) (s : State V) (r : Reg) : State V :=
   let c : Call V := ⟨r, m, p, item⟩
-  match behave c with
-  | .ok => { s with calls := s.calls ++ [c] }
-  | .unregister => { s with calls := s.calls ++ [c], regs := s.regs.erase r }
-  | .raises => { s with calls := s.calls ++ [c], reported := s.reported + 1 }
+  { s with calls := s.calls ++ [c], regs := afterCall behave s.regs c,
+           reported := if (behave c).result = .raises then s.reported + 1 else s.reported }
 
-/-- `ProxyClient.callback(key, kind, …)`: iterates over a copy of the list -/
+/-- `ProxyClient.callback(key, kind, …)`: iterates over a copy of the list as it is when the fan-out begins -/
 def fanout {V : Type} (behave : Call V → Outcome) (kind : Kind) (key : Key) (m p : Str) (item : Item V)
     (s : State V) : State V :=
   (s.regs.filter (·.on kind key)).foldl (fanoutStep behave m p item) s
 
-/-- `SecopClient.updateValue` after the import: cache write, `updateItem` ×3, `updateEvent` ×3 -/
+/-- the six fan-outs of one message for `(m, p)`, in code order: `updateItem` ×3 (`SecopClient.updateValue`), then
+`updateEvent` ×3 (`ProxyClient.updateValue`) -/
+def stages (m p : Str) : List (Kind × Key) :=
+  [(.item, .node), (.item, .module m), (.item, .param m p), (.event, .node), (.event, .module m), (.event, .param m p)]
+
+/-- `SecopClient.updateValue` after the import: cache write, then the six fan-outs -/
 def updateValue {V : Type} (behave : Call V → Outcome) (m p : Str) (item : Item V) (s : State V) : State V :=
-  let s := { s with cache := dictSet s.cache (m, p) item }
-  let s := fanout behave .item .node m p item s
-  let s := fanout behave .item (.module m) m p item s
-  let s := fanout behave .item (.param m p) m p item s
-  let s := fanout behave .event .node m p item s
-  let s := fanout behave .event (.module m) m p item s
-  fanout behave .event (.param m p) m p item s
+  (stages m p).foldl (fun s st => fanout behave st.1 st.2 m p item s) { s with cache := dictSet s.cache (m, p) item }
 
 /-! ## The receive-loop body -/
 
@@ -306,12 +325,14 @@ def immediateArgs {V : Type} (cache : Cache V) : Key → Cache V
     | none => []
   | .module m => cache.filter (fun e => e.1.1 == m)
 
-/-- `register_callback(key, kind=cb)`: call back for every cached entry concerned; the callback is appended
-unless one of these calls raised `UnregisterCallback`; other exceptions are only logged -/
+/-- `register_callback(key, kind=cb)`: call back for every cached entry concerned (the arguments are collected before the
+first call); the callback is appended unless one of these calls raised `UnregisterCallback`; other exceptions are only
+logged; what the calls unregister themselves is gone before the new registration is appended -/
 def register {V : Type} (behave : Call V → Outcome) (s : State V) (r : Reg) : State V :=
   let cs : List (Call V) := (immediateArgs s.cache r.key).map (fun e => ⟨r, e.1.1, e.1.2, e.2⟩)
-  let keep := cs.all (fun c => behave c != .unregister)
-  { s with calls := s.calls ++ cs, regs := if keep then s.regs ++ [r] else s.regs }
+  let keep := cs.all (fun c => (behave c).result != .unregister)
+  let regs := cs.foldl (fun l c => applyRemoves l (behave c).removes) s.regs
+  { s with calls := s.calls ++ cs, regs := if keep then regs ++ [r] else regs }
 
 /-- `unregister_callback`: `list.remove` of the first occurrence, if any -/
 def unregister {V : Type} (s : State V) (r : Reg) : State V :=
